@@ -148,6 +148,19 @@ def grid(rng):
     return out
 
 
+def padded():
+    """literals written with more digits than their value needs (leading zeros after the radix prefix): any number of
+    them, also far beyond the 64-bit width - the value is the literal's value"""
+    out = []
+    for v in (0, 1, 7, 18, 255, 0x1234, 2 ** 31, 2 ** 63 - 1):
+        for k in (1, 2, 7, 8, 15, 16, 17, 22, 23, 31, 32, 63, 64, 65, 66, 100, 200):
+            for form, text in ((1, "$" + "0" * k + "%x" % v), (2, "0x" + "0" * k + "%X" % v), (3, "0b" + "0" * k + bin(v)[2:]),
+                               (4, "0" + "0" * k + oct(v)[2:])):
+                out.append((text, "(c %d)" % v, "padded-literal"))
+                out.append(("1 + " + text + "*2", "(b + (c 1) (b * (c %d) (c 2)))" % v, "padded-literal"))
+    return out
+
+
 HOSTILE = ["", " ", "(", ")", "()", "1+", "+1", "1 2", "a b", "1++2", "--1", "-~!1", "- 1", "~ 1", "((((1))))", "1<<<2", "1<==2",
            "1&&&2", "1|||2", "0x", "$", "0b", "0b2", "08", "09", "0", "00", "007", "0x7fffffffffffffff", "0x8000000000000000",
            "9223372036854775807", "9223372036854775808", "99999999999999999999", "$FFFFFFFFFFFFFFFF", "0b" + "1" * 63, "0b" + "1" * 64,
